@@ -13,6 +13,7 @@ import tempfile
 import collections
 
 USER = 'vuser'
+USER2 = 'valice'         # another user of the machine: her home is NOT the bus process's $HOME
 _Pw = collections.namedtuple('_Pw', 'pw_name pw_passwd pw_uid pw_gid pw_gecos pw_dir pw_shell')
 
 
@@ -24,6 +25,7 @@ class AuthEnv:
 
     def __enter__(self):
         self.home = tempfile.mkdtemp(prefix='txdbus-verif-home-')
+        self.home2 = tempfile.mkdtemp(prefix='txdbus-verif-home2-')
         self._orig_getpwnam = pwd.getpwnam
         self._orig_home = os.environ.get('HOME')
         env = self
@@ -31,6 +33,8 @@ class AuthEnv:
         def getpwnam(name):
             if name == USER:
                 return _Pw(USER, 'x', os.geteuid(), os.getegid(), '', env.home, '/bin/sh')
+            if name == USER2:
+                return _Pw(USER2, 'x', os.geteuid(), os.getegid(), '', env.home2, '/bin/sh')
             return env._orig_getpwnam(name)
         pwd.getpwnam = getpwnam
         os.environ['HOME'] = self.home
@@ -48,6 +52,7 @@ class AuthEnv:
         else:
             os.environ['HOME'] = self._orig_home
         shutil.rmtree(self.home, ignore_errors=True)
+        shutil.rmtree(self.home2, ignore_errors=True)
 
     @property
     def keyring(self):
@@ -60,8 +65,9 @@ class AuthEnv:
         except OSError:
             return []
 
-    def read_cookie(self, context, cookie_id):
-        path = os.path.join(self.keyring, context.decode('ascii') if isinstance(context, bytes) else context)
+    def read_cookie(self, context, cookie_id, home=None):
+        path = os.path.join(os.path.join(home, '.dbus-keyrings') if home else self.keyring,
+                            context.decode('ascii') if isinstance(context, bytes) else context)
         with open(path, 'rb') as f:
             for line in f:
                 parts = line.split()
